@@ -167,6 +167,8 @@ enum Status {
     /// thread `tid` was granted step `step` and neither yielded nor finished within the watchdog time
     Blocked { tid: usize, step: usize },
     Panicked { tid: usize, step: usize, msg: String },
+    /// (only with stops inside critical sections) every unfinished thread waits for a lock
+    Deadlock { threads: Vec<usize> },
 }
 struct RunResult<L> {
     sched: Vec<usize>,
@@ -237,52 +239,99 @@ where
     drop(to_driver);
     let mut remaining: Vec<usize> = progs.iter().map(|p| p.len()).collect();
     let mut res = RunResult { sched: vec![], events: vec![], outs: vec![vec![]; n], status: Status::Finished, locals: vec![] };
-    let mut blocked: Option<usize> = None;
-    loop {
-        let live: Vec<usize> = (0..n).filter(|&i| remaining[i] > 0).collect();
+    // threads that did not come back from a granted step (they wait for a lock); with `stop_held`
+    // the run goes on with the others, and a late report un-blocks them
+    let mut blocked: BTreeSet<usize> = BTreeSet::new();
+    let wd = Duration::from_millis(if stop_held { 1500 } else { WATCHDOG_MS.load(Ordering::Relaxed) });
+    'outer: loop {
+        let live: Vec<usize> = (0..n).filter(|&i| remaining[i] > 0 && !blocked.contains(&i)).collect();
         if live.is_empty() {
+            if !blocked.is_empty() {
+                // every unfinished thread waits for a lock: give late reports one more chance
+                match from_workers.recv_timeout(wd * 2) {
+                    Ok((tid, rep)) => {
+                        blocked.remove(&tid);
+                        match rep {
+                            Report::Yield(s) => res.events.push(format!("late:{}:{}", tid, s)),
+                            Report::Done(o) => {
+                                res.events.push(format!("late:{}:ret", tid));
+                                res.outs[tid].push(o);
+                                remaining[tid] -= 1;
+                            }
+                            Report::Panic(m) => {
+                                res.status = Status::Panicked { tid, step: res.sched.len(), msg: m };
+                                break;
+                            }
+                        }
+                        continue;
+                    }
+                    Err(_) => {
+                        res.status = Status::Deadlock { threads: blocked.iter().copied().collect() };
+                    }
+                }
+            }
             break;
         }
         let t = choose(&live);
         let step = res.sched.len();
         res.sched.push(t);
         let _ = grant_tx[t].send(Grant::Go);
-        let wd = Duration::from_millis(WATCHDOG_MS.load(Ordering::Relaxed));
-        match from_workers.recv_timeout(wd) {
-            Ok((tid, rep)) => {
-                debug_assert_eq!(tid, t);
-                match rep {
-                    Report::Yield(s) => res.events.push(s.to_string()),
-                    Report::Done(o) => {
-                        res.events.push("ret".into());
-                        res.outs[t].push(o);
-                        remaining[t] -= 1;
+        loop {
+            match from_workers.recv_timeout(wd) {
+                Ok((tid, rep)) if tid == t => {
+                    match rep {
+                        Report::Yield(s) => res.events.push(s.to_string()),
+                        Report::Done(o) => {
+                            res.events.push("ret".into());
+                            res.outs[t].push(o);
+                            remaining[t] -= 1;
+                        }
+                        Report::Panic(m) => {
+                            res.events.push("panic".into());
+                            res.status = Status::Panicked { tid: t, step, msg: m };
+                            break 'outer;
+                        }
                     }
-                    Report::Panic(m) => {
-                        res.events.push("panic".into());
-                        res.status = Status::Panicked { tid: t, step, msg: m };
-                        break;
+                    break;
+                }
+                Ok((tid, rep)) => {
+                    // a thread that was waiting for a lock got it and reached its next stop
+                    blocked.remove(&tid);
+                    match rep {
+                        Report::Yield(s) => res.events.push(format!("late:{}:{}", tid, s)),
+                        Report::Done(o) => {
+                            res.events.push(format!("late:{}:ret", tid));
+                            res.outs[tid].push(o);
+                            remaining[tid] -= 1;
+                        }
+                        Report::Panic(m) => {
+                            res.status = Status::Panicked { tid, step, msg: m };
+                            break 'outer;
+                        }
                     }
                 }
-            }
-            Err(RecvTimeoutError::Timeout) | Err(RecvTimeoutError::Disconnected) => {
-                res.events.push("blocked".into());
-                res.status = Status::Blocked { tid: t, step };
-                blocked = Some(t);
-                BLOCKED_SEEN.fetch_add(1, Ordering::Relaxed);
-                break;
+                Err(_) => {
+                    res.events.push("blocked".into());
+                    blocked.insert(t);
+                    if stop_held {
+                        break;
+                    }
+                    BLOCKED_SEEN.fetch_add(1, Ordering::Relaxed);
+                    res.status = Status::Blocked { tid: t, step };
+                    break 'outer;
+                }
             }
         }
         after_step(step);
     }
     // release everybody who is parked; a blocked thread is leaked (it sits in a lock of the code under test)
     for (i, g) in grant_tx.iter().enumerate() {
-        if Some(i) != blocked {
+        if !blocked.contains(&i) {
             let _ = g.send(Grant::Abort);
         }
     }
     for (i, h) in handles.into_iter().enumerate() {
-        if Some(i) == blocked {
+        if blocked.contains(&i) {
             res.locals.push(None);
             std::mem::forget(h);
         } else {
@@ -333,6 +382,7 @@ fn status_text(s: &Status) -> String {
         Status::Finished => "finished".into(),
         Status::Blocked { tid, step } => format!("BLOCKED: thread {} granted at step {} neither reached a yield point nor finished", tid, step),
         Status::Panicked { tid, step, msg } => format!("PANIC in thread {} at step {}: {}", tid, step, msg),
+        Status::Deadlock { threads } => format!("DEADLOCK: threads {:?} all wait for a lock and nobody can run", threads),
     }
 }
 
@@ -368,6 +418,7 @@ fn emit_sched_case(
             c.kid = kid.map(|s| s.to_string());
             tags.push(match status {
                 Status::Blocked { .. } => "status:blocked".into(),
+                Status::Deadlock { .. } => "status:deadlock".into(),
                 _ => "status:panic".into(),
             });
         }
